@@ -172,6 +172,9 @@ func (p *Program) programObligations(id string) []*Obligation {
 	if id == "C06" {
 		out = append(out, p.scanAtomicGlobals(decided)...)
 	}
+	if id == "C13" {
+		out = append(out, p.scanCSVConfig(decided)...)
+	}
 	return out
 }
 
@@ -363,6 +366,53 @@ func (p *Program) scanMapIteration(decided decidedFn) []*Obligation {
 		}
 	}
 	out = append(out, decided("mimetype.detection#C04.no_map_iteration", "no function iterates over a map (iteration order is not a function of the input)", bad == 0, nil))
+	return out
+}
+
+// scanCSVConfig: the field semantics of CSV/TSV are encoding/csv's (assumed) under one
+// configuration: Comma = the separator, LazyQuotes, Comment '#', ReuseRecord; every other option
+// (TrimLeadingSpace, FieldsPerRecord, ...) keeps its default. The set of csv.Reader options the
+// repository assigns is part of that assumption and is pinned here.
+func (p *Program) scanCSVConfig(decided decidedFn) []*Obligation {
+	var out []*Obligation
+	want := map[string]bool{"Comma": true, "ReuseRecord": true, "LazyQuotes": true, "Comment": true}
+	got := map[string]bool{}
+	bad := 0
+	for key, fn := range p.funcs {
+		for _, b := range fn.Blocks {
+			for _, ins := range b.Instrs {
+				st, ok := ins.(*ssa.Store)
+				if !ok {
+					continue
+				}
+				fa, ok := st.Addr.(*ssa.FieldAddr)
+				if !ok {
+					continue
+				}
+				pt, ok := fa.X.Type().Underlying().(*types.Pointer)
+				if !ok {
+					continue
+				}
+				n, ok := pt.Elem().(*types.Named)
+				if !ok || n.Obj().Pkg() == nil || n.Obj().Pkg().Path() != "encoding/csv" || n.Obj().Name() != "Reader" {
+					continue
+				}
+				name := n.Underlying().(*types.Struct).Field(fa.Field).Name()
+				got[name] = true
+				if !want[name] {
+					bad++
+					out = append(out, decided(fmt.Sprintf("%s#C13.csv_config[%s]", key, name), "csv.Reader option "+name+" is assigned: the assumed field semantics are those of the default for this option", false, ins))
+				}
+			}
+		}
+	}
+	for name := range want {
+		if !got[name] {
+			bad++
+			out = append(out, decided("magic.sv#C13.csv_config["+name+"]", "csv.Reader option "+name+" is no longer assigned", false, nil))
+		}
+	}
+	out = append(out, decided("magic.sv#C13.csv_config", "csv.Reader is configured with exactly Comma, ReuseRecord, LazyQuotes, Comment (all other options default)", bad == 0, nil))
 	return out
 }
 
